@@ -7,6 +7,7 @@ mod c01;
 mod c02;
 mod child;
 mod c03;
+mod c04;
 mod c05;
 mod c06;
 mod c07;
@@ -18,6 +19,7 @@ mod c10;
 mod c11;
 mod c12;
 mod c13;
+mod c16;
 mod c17;
 mod pat;
 
@@ -40,6 +42,7 @@ fn props() -> Vec<Prop> {
         Prop { id: "C01", run: c01::run, replay: c01::replay, meta: c01::meta, workers: (1, 16), also_release: false },
         Prop { id: "C02", run: c02::run, replay: c02::replay, meta: c02::meta, workers: (8, 16), also_release: false },
         Prop { id: "C03", run: c03::run, replay: c03::replay, meta: c03::meta, workers: (1, 16), also_release: false },
+        Prop { id: "C04", run: c04::run, replay: c04::replay, meta: c04::meta, workers: (4, 16), also_release: false },
         Prop { id: "C05", run: c05::run, replay: c05::replay, meta: c05::meta, workers: (4, 16), also_release: false },
         Prop { id: "C06", run: c06::run, replay: c06::replay, meta: c06::meta, workers: (4, 16), also_release: false },
         Prop { id: "C07", run: c07::run, replay: c07::replay, meta: c07::meta, workers: (4, 16), also_release: false },
@@ -48,6 +51,7 @@ fn props() -> Vec<Prop> {
         Prop { id: "C11", run: c11::run, replay: c11::replay, meta: c11::meta, workers: (4, 16), also_release: true },
         Prop { id: "C12", run: c12::run, replay: c12::replay, meta: c12::meta, workers: (1, 16), also_release: false },
         Prop { id: "C13", run: c13::run, replay: c13::replay, meta: c13::meta, workers: (1, 16), also_release: false },
+        Prop { id: "C16", run: c16::run, replay: c16::replay, meta: c16::meta, workers: (8, 16), also_release: false },
         Prop { id: "C17", run: c17::run, replay: c17::replay, meta: c17::meta, workers: (4, 16), also_release: false },
         Prop { id: "C10", run: c10::run, replay: c10::replay, meta: c10::meta, workers: (1, 16), also_release: false },
     ]
@@ -142,6 +146,7 @@ fn main() {
 fn child(name: &str, args: &[String]) -> i32 {
     match name {
         "c02" => child::child_main::<c02::History>(args, c02::child_check),
+        "c16" => child::child_main::<engine::ReplayFile>(args, c16::child_replay),
         _ => {
             eprintln!("unknown child {}", name);
             2
